@@ -194,6 +194,19 @@ CHECKS["C08"] = dict(
          "rotation operands inside programs are fixed dyadic values (arbitrary n, d: C07 (b)).",
     design="3/C08")
 
+CHECKS["C19"] = dict(
+    engine="symx",
+    technique="SMT (z3 mixed real/integer linear arithmetic): symbolic execution of the real get_angle_spec_from_float on a real-valued angle and tolerance, loop unrolled until z3 refutes the loop condition",
+    text="The real function runs on z3 Reals for the angle (through r = angle mod 2 pi in [0, 2 pi], closed because the float remainder can "
+         "round up to 2 pi) and the tolerance; floor/log2/int are stubs with stated contracts; every path (exponent sequence x "
+         "simplification steps, partitioned by the first two exponents over the cores) ends with z3 deciding 1<=n<=255, 0<=d<=255 and "
+         "|sum n/2^d - r/pi| <= tol. Quick: tol in [0.01, 0.1] symbolic, the SDK default 1e-4 and a 1e-9 slice; thorough: all tol in "
+         "[1e-9, 0.1]. The builder is checked to emit one rotation per step (symbolic steps). Counterexamples are replayed with real "
+         "floats on the unstubbed function.",
+    note="Trusted: z3; the binary64 model of vf/symreal.py (exact power-of-two scaling, Sterbenz subtraction, floor/log2 contracts with "
+         "2^-50 slack). 'Within tolerance' is read as the implementation applies it (to angle/pi). At most 8 loop iterations (checked).",
+    design="3/C19")
+
 NOT_YET = "check not built yet in this revision (work in progress; see DESIGN.md section 3 for the planned solver-based check)"
 NOT_APPLICABLE = {}
 
